@@ -160,7 +160,12 @@ pub fn targeted(rng: &mut Rng) -> (&'static str, Program, &'static str) {
         }
         _ => {
             // evaluation order: receiver / left-hand object first (JavaScript) vs arguments first (the compiler): F42 / F43
-            match rng.below(2) {
+            match rng.below(3) {
+                2 => {
+                    // the callee is itself a call result: `a.label(1).arg(a.sum3(…))` (label first in JavaScript)
+                    let inner = call(mem(call(mem(id("a"), "label"), vec![int(1)]), "arg"), vec![call(mem(id("a"), "sum3"), vec![int(2), int(2), mem(id("b"), "i")])]);
+                    ("fired", Program::Stmt(Stmt::Expr(call(mem(id("b"), "setBoth"), vec![int(0), inner]))), "f42-call-order")
+                }
                 0 => ("fired", Program::Stmt(Stmt::Expr(call(mem(call(mem(id("a"), "pick"), vec![int(1)]), "bump"), vec![call(mem(id("b"), "count"), vec![])]))), "f42-call-order"),
                 _ => ("fired", Program::Stmt(Stmt::Expr(Expr::Assign(Box::new(mem(call(mem(id("a"), "pick"), vec![int(1)]), "j")), Box::new(call(mem(id("b"), "count"), vec![]))))), "f43-assign-order"),
             }
@@ -282,18 +287,19 @@ impl C13 {
             for (id, _) in ir::OBJECTS {
                 writeln!(tu, "    conns += rt::connections(ui->{id});").unwrap();
             }
-            writeln!(tu, "    std::printf(\"{n} (setup %s %d %d)\", st ? st : \"ok\", conns, rt::connections(ui->a));").unwrap();
+            writeln!(tu, "    std::printf(\"{n} (setup %s %d %d)\", st ? st : \"ok\", conns, rt::connections(ui->a)); std::fflush(stdout);").unwrap();
             writeln!(tu, "    for (int k = 0; k < {}; ++k) {{", states.len()).unwrap();
             writeln!(tu, "        set_state(k, ui->a, ui->b, ui->o, ui->dv);").unwrap();
             writeln!(tu, "        rt::trace.clear(); rt::tracing = true;").unwrap();
             writeln!(tu, "        const char *f = rt::guard([&]() {{ emit_{}(k, ui->a, ui->b, ui->o, ui->dv); }});", b.signal).unwrap();
             writeln!(tu, "        rt::tracing = false;").unwrap();
             writeln!(tu, "        if (f) std::printf(\" (fail %s)\", f); else {{ std::printf(\" (t\"); for (auto &e : rt::trace) std::printf(\" %s\", e.c_str()); std::printf(\")\"); }}").unwrap();
+            writeln!(tu, "        std::fflush(stdout);").unwrap();
             writeln!(tu, "    }}\n    std::printf(\"\\n\"); std::fflush(stdout);\n}}").unwrap();
         }
         tu.push_str("int main()\n{\n    rt::install();\n");
         for b in built {
-            writeln!(tu, "    run_{}();", b.name).unwrap();
+            writeln!(tu, "    rt::in_child([]() {{ run_{}(); }});", b.name).unwrap();
         }
         tu.push_str("    std::printf(\"(done)\\n\");\n    return 0;\n}\n");
         std::fs::write(dir.join("tu.cpp"), tu).map_err(|e| e.to_string())?;
@@ -303,9 +309,7 @@ impl C13 {
             if let Some((name, rest)) = line.split_once(' ') {
                 if name.starts_with('T') {
                     if let Some(Sexp::List(v)) = Sexp::parse(&format!("({rest})")) {
-                        let mut r = vec![atom("ok")];
-                        r.extend(v);
-                        out.insert(name.to_owned(), r);
+                        out.insert(name.to_owned(), c01::pad_died(v, states.len()));
                     }
                 }
             }
@@ -384,7 +388,11 @@ impl Stream for C13 {
                     }
                     continue;
                 }
-                if c01::f41_candidate(&p) {
+                if c01::f41_candidate(&p) || c01::f41_method_candidate(&p) {
+                    // witnesses of F41 run alone
+                    if bk % 4 == 0 {
+                        cases.push(Case { kind: "pred", labels: vec!["f41-long-constant".into()], request: head(vec![handler_sexp(sig, &p)]) });
+                    }
                     continue;
                 }
                 labels.push(label);
